@@ -935,7 +935,13 @@ class RWMH(_AbstractSampler):
                 self.samples.close()
             raise e
 
-        self._sample_loop()
+        try:
+            self._sample_loop()
+        except BaseException:
+            # The loop closes the samples file itself once it runs; its set-up part
+            # (progress bar, an invalid disable_progressbar) does not
+            self.samples.close()
+            raise
 
         if self.parallel:
             queue.put({f"{self.sampler_index}": self._widget_data()})
@@ -1341,7 +1347,13 @@ class HMC(_AbstractSampler):
                     return
             raise e
 
-        self._sample_loop()
+        try:
+            self._sample_loop()
+        except BaseException:
+            # The loop closes the samples file itself once it runs; its set-up part
+            # (progress bar, an invalid disable_progressbar) does not
+            self.samples.close()
+            raise
 
         if self.parallel:
             queue.put({f"{self.sampler_index}": self._widget_data()})
